@@ -52,8 +52,15 @@ def run(cfg, ctx):
         prov[f"out{i}"] = dut.serialize_out[i]
     th = TH(dut, prov, required={"req": req, "resp": resp}, capture=(Serializer, BasicFifo, CircularAllocator))
     hw = th.hw
-    fifo = th.locals_of(dut)["pending_requests"]
-    rep = BasicFifoRep(hw, hw.rec, fifo)
+    try:
+        fifo = th.locals_of(dut)["pending_requests"]
+        rep = BasicFifoRep(hw, hw.rec, fifo)
+    except (KeyError, AttributeError) as e:
+        # the representation named by the contract is gone: fall back to the representation-independent bounded monitor
+        ctx.notes.append(f"representation lookup failed ({e!r}); only the bounded interface monitor was run")
+        ctx.use(hw)
+        interface_monitor(ctx, th, hw, pc, depth, undecided_if_clean=True)
+        return
     m = th.m
     ins = [m[f"in{i}"] for i in range(pc)]
     outs = [m[f"out{i}"] for i in range(pc)]
@@ -115,9 +122,46 @@ def run(cfg, ctx):
     fs = [z3.Implies(z3.And(g_tr == 1, g_pos == 0, outs[i].run), g_cl == i) for i in range(pc)]
     P("tracked_request.answered_only_by_its_own_port", z3.And(*fs))
     P("tracked_request.position_decreases_once_per_response", z3.Implies(z3.And(g_tr == 1, z3.Not(popped)), hw.gnext(g_pos) == g_pos - N(anyout)))
+    if ctx.tier != "quick" or (pc, depth) in ((2, 2), (3, 1)):
+        interface_monitor(ctx, th, hw, pc, depth)
     ctx.cover("tracked_answered", z3.And(*pre, *A, popped), hw=hw)
     if depth > 1:
         ctx.cover("in+out", z3.And(*pre, *A, anyin, anyout), hw=hw)
+
+
+def interface_monitor(ctx, th, hw, pc, depth, undecided_if_clean=False):
+    """Ghost specification state: the queue of pending client ids, updated only from the method interface (which calls
+    ran). Searched from reset for an input sequence after which a response is delivered to a client that is not the
+    oldest pending one, a deliverable response is refused, a request is accepted without room, or refused with room."""
+    m = th.m
+    ins = [m[f"in{i}"] for i in range(pc)]
+    outs = [m[f"out{i}"] for i in range(pc)]
+    clr = m["clear"]
+    idw = max(1, (pc - 1).bit_length())
+    qn = hw.ghost("mon_len", NW)
+    qe = [hw.ghost(f"mon_e{j}", idw) for j in range(depth)]
+    anyin = z3.Or(*[x.done for x in ins])
+    anyout = z3.Or(*[x.done for x in outs])
+    who = z3.BitVecVal(0, idw)
+    for i in range(pc):
+        who = z3.If(ins[i].done, z3.BitVecVal(i, idw), who)
+    Q = Seq(qn, qe)
+    nxt = Q.drop(N(anyout)).append1(who, anyin)
+    hw.set_ghost_next(qn, z3.If(clr.done, N(0), nxt.n))
+    for j in range(depth):
+        hw.set_ghost_next(qe[j], nxt.e[j])
+    A = z3.Implies(clr.done, z3.And(qn == 0, z3.Not(anyin)))
+    head = N(qe[0])
+    bad = []
+    for i in range(pc):
+        bad.append(z3.And(outs[i].done, z3.Or(qn == 0, head != i)))
+        only_out = z3.And(*[z3.Not(outs[j].en) for j in range(pc) if j != i]) if pc > 1 else z3.BoolVal(True)
+        bad.append(z3.And(outs[i].en, only_out, m["resp"].en, qn != 0, head == i, z3.Not(outs[i].done)))
+        only_in = z3.And(*[z3.Not(ins[j].en) for j in range(pc) if j != i]) if pc > 1 else z3.BoolVal(True)
+        bad.append(z3.And(ins[i].done, qn == depth))
+        bad.append(z3.And(ins[i].en, only_in, m["req"].en, qn != depth, z3.Not(ins[i].done)))
+        bad.append(z3.And(outs[i].done, outs[i].res("r") != m["resp"].res("r")))
+    ctx.bmc("interface_monitor.responses_matched_with_requests", hw, z3.Or(*bad), assume=A, undecided_if_clean=undecided_if_clean)
 
 
 def run_zipper(cfg, ctx):
